@@ -36,6 +36,7 @@ type expectCase struct {
 func runExpect(c expectCase) (viol string, harness string) {
 	l, err := lab.NewSocketLab(c.Lab.Strategy, lab.SocketOpts{Backends: c.Lab.Backends, BasePaths: c.Lab.BasePaths, Binary: c.Binary, Mutate: func(cfg *config.Config) {
 		cfg.Logging.RequestID.Enabled, cfg.Logging.Trace.Enabled = c.Lab.ReqID, c.Lab.Trace
+		c.Lab.applyGuards(cfg)
 		cfg.Logging.Level, cfg.Logging.Format = c.Lab.LogLevel, c.Lab.LogFormat
 		if c.Lab.LogPlugin {
 			cfg.Plugins.Enabled = true
